@@ -258,14 +258,15 @@ def r05_5(ctx):
     F = ctx.facts
     n = 0
     for f in F.find(crate=IM):
-        if not (f.file or "").endswith("vector/subscriber.rs") and not (f.name == "into_vec"):
-            continue
         b = f.built
         if not b:
             continue
         root = root_fn(F, f)
-        if root.name not in ("poll_next", "into_vec", "append"):
+        in_stream = (root.file or "").endswith("vector/subscriber.rs") and root.name == "poll_next"
+        of_msg = (root.raw.get("self_ty") or "").startswith("vector::OneOrManyDiffs<") and not root.raw.get("impl_trait")
+        if not (in_stream or of_msg):
             continue
+        # (a) nothing is taken from the back / reversed while unpacking a multi-diff message
         for blk, t in b.calls(REVERSERS):
             n += 1
             ctx.call_sites += 1
@@ -278,20 +279,28 @@ def r05_5(ctx):
             else:
                 ctx.violated("R05.5", f, "in-order-unpacking", where,
                              "`%s` takes diffs from the back / reverses while unpacking a multi-diff message: the subscriber would replay a transaction out of order" % t["callee"])
-        # batched: append(target, source)
-        if f.name == "append" and f.kind == "fn":
-            for blk, t in b.calls(r"^std::vec::Vec::<.*>::(push|append|extend|insert)$"):
-                n += 1
-                e0 = b.expr_of_op(t["args"][0])
-                e1 = b.expr_of_op(t["args"][-1])
-                ok = contains(e0, lambda x: x[0] == "param" and x[1] == 1) and contains(e1, lambda x: x[0] == "param" and x[1] == 2)
-                m = t["callee"].split("::")[-1]
-                if m == "insert":
-                    ctx.violated("R05.5", f, "in-order-concatenation", b.line_at((blk, 10 ** 6)), "batched stream inserts later diffs before earlier ones")
-                else:
-                    ctx.verdict(ok, "R05.5", f, "in-order-concatenation", b.line_at((blk, 10 ** 6)), "target.%s(source): later message appended after earlier ones" % m,
-                                "the batched stream appends the accumulated batch onto the newer message (order of messages reversed)")
-    ctx.floor("R05.5", n, 3)
+    # (b) concatenation helper (role: takes a `&mut Vec<VectorDiff>` and a OneOrManyDiffs): later message after earlier ones
+    for f in F.find(crate=IM):
+        b = f.built
+        if not b or f.kind not in ("fn", "assoc"):
+            continue
+        tys = [b.locals[i]["ty"] for i in range(1, b.arg_count + 1)]
+        tgt = [i + 1 for i, t in enumerate(tys) if t.startswith("&mut std::vec::Vec<") and "VectorDiff<" in t]
+        src = [i + 1 for i, t in enumerate(tys) if "OneOrManyDiffs<" in t]
+        if len(tgt) != 1 or len(src) != 1:
+            continue
+        for blk, t in b.calls(r"^std::vec::Vec::<.*>::(push|append|extend|insert|extend_from_slice)$"):
+            n += 1
+            e0 = b.expr_of_op(t["args"][0])
+            e1 = b.expr_of_op(t["args"][-1])
+            ok = contains(e0, lambda x: x[0] == "param" and x[1] == tgt[0]) and contains(e1, lambda x: x[0] == "param" and x[1] == src[0])
+            m = t["callee"].split("::")[-1]
+            if m == "insert":
+                ctx.violated("R05.5", f, "in-order-concatenation", b.line_at((blk, 10 ** 6)), "the batched stream inserts later diffs before earlier ones")
+            else:
+                ctx.verdict(ok, "R05.5", f, "in-order-concatenation", b.line_at((blk, 10 ** 6)), "target.%s(source): later message appended after earlier ones" % m,
+                            "the batched stream appends the accumulated batch onto the newer message (order of messages reversed)")
+    ctx.floor("R05.5", n, 2)
 
 
 def r05_6(ctx):
